@@ -1284,6 +1284,20 @@ class Planner:
                 self.derived.append((d, rk, mi))
                 if r.random() < 0.5:
                     self.forms.append((d, rk, mi))
+        # combinations of forms of equal rank on one mesh (built and derived ones, early and
+        # late ones): the relative creation order of everything they contain enters one signature
+        allf = list(dict.fromkeys([tuple(f) for f in self.forms] + [tuple(f) for f in self.derived]))
+        for _ in range(self.cfg.get("n_combined", r.randint(0, 2))):
+            if len(allf) < 2:
+                break
+            a = r.choice(allf)
+            mates = [b for b in allf if b[0] != a[0] and b[1] == a[1] and b[2] == a[2]]
+            if not mates:
+                continue
+            b = r.choice(mates)
+            c = self.call("operator." + r.choice(["add", "sub"]), self.ref(a[0]), self.ref(b[0]), kind="form", keep_failed=self.cfg.get("keep_failed", False))
+            if c is not None and c in self.node.slots and isinstance(self.obj(c), Form):
+                self.derived.append((c, a[1], a[2]))
         return self.result()
 
     # ---------------------------------------------------------------- C27 / C13 pools
